@@ -53,6 +53,9 @@ func c16ConfigSamePkg(p *spec.Program) spec.Config {
 	return c
 }
 
+// ConfigPathShapes: ways of naming a readable configuration file.
+var ConfigPathShapes = []string{"absolute", "subdir", "dotdot", "symlink", "symlink-chain", "symlink-dir", "hardlink", "spaces", "noext", "hidden", "readonly"}
+
 func allOn(ch spec.Channel) map[string]spec.Channel {
 	m := map[string]spec.Channel{}
 	for _, d := range spec.DualOptions {
@@ -212,6 +215,17 @@ func C16Cases(p *spec.Program, seed uint64, tier string, nSplits int) ([]*Case, 
 			run := runFrom(cfg.Render(s, randOrder(r)))
 			run.Note = fmt.Sprintf("seeded split %d", i)
 			add("channel-equivalence/split", ref, run, Expect{Kind: "identical-file"})
+		}
+		// the same file named in other ways (whatever names a readable file is the YAML channel)
+		if refR.Config != nil {
+			for _, via := range ConfigPathShapes {
+				run := refR
+				cf := *refR.Config
+				cf.Via = via
+				run.Config = &cf
+				run.Note = "the reference configuration file named through: " + via
+				add("channel-equivalence/config-path:"+via, ref, run, Expect{Kind: "identical-file"})
+			}
 		}
 		// a very large file: the options sit behind 300 KiB of comments / inside a list of thousands of entries
 		if variant == 0 {
